@@ -266,9 +266,14 @@ func cross(in sigSet, branches sigSet) sigSet {
 }
 
 // isPureErrTest: cond is exactly `err != nil` for an error-typed identifier.
-func (w *wctx) isPureErrTest(cond ast.Expr) bool {
+func (w *wctx) isPureErrTest(cond ast.Expr) bool { return w.isErrNilCmp(cond, token.NEQ) }
+
+// isPureErrNilTest: cond is exactly `err == nil` for an error-typed identifier.
+func (w *wctx) isPureErrNilTest(cond ast.Expr) bool { return w.isErrNilCmp(cond, token.EQL) }
+
+func (w *wctx) isErrNilCmp(cond ast.Expr, op token.Token) bool {
 	b, ok := ast.Unparen(cond).(*ast.BinaryExpr)
-	if !ok || b.Op != token.NEQ {
+	if !ok || b.Op != op {
 		return false
 	}
 	isNil := func(e ast.Expr) bool {
@@ -450,6 +455,11 @@ func (w *wctx) stmt(s ast.Stmt, in sigSet) (closed, open sigSet) {
 			if terminates(v.Body.List) {
 				thenOpen = nil
 			}
+		}
+		if v.Else == nil && w.isPureErrNilTest(v.Cond) {
+			// `if err == nil { more I/O }`: errors are collected and tested once afterwards; the path
+			// that skips the body carries an error, it is no wire form
+			elseOpen = nil
 		}
 		if eb, ok := v.Else.(*ast.BlockStmt); ok && w.returnsFreshError(eb.List) {
 			elseClosed = nil
